@@ -76,6 +76,17 @@ OnDemandChecks(g, od) ==
                                /\ Range(od[i].visited) = Reach(g)
                                /\ Len(od[i].visited) = Cardinality(Reach(g))
                                /\ od[i].unique = Cardinality(Reach(g)) /\ od[i].total >= od[i].unique,
+    \* ... finishes like BFS: the verdicts are those of the exhaustive search (eventually-properties: on forests, where every
+    \* state has one path and the verdict does not depend on the order of the search)
+    ondemand_verdicts |-> \A i \in DOMAIN od :
+                             (od[i].is_done /\ Range(od[i].visited) = Reach(g)) =>
+                               \A m \in DOMAIN g.props :
+                                  LET p == g.props[m]
+                                      disc == \E k \in DOMAIN od[i].discoveries : od[i].discoveries[k].name = p.name
+                                  IN CASE p.kind = "always"     -> disc <=> Violated(g, p)
+                                       [] p.kind = "sometimes"  -> disc <=> Witnessed(g, p)
+                                       [] p.kind = "eventually" -> IsForest(g) => (disc <=> EvCex(g, p))
+                                       [] OTHER -> TRUE,
     \* paths rebuilt from fingerprints (discoveries), from their action lists and the model denote the same execution
     ondemand_paths |-> \A i \in DOMAIN od : \A k \in DOMAIN od[i].discoveries :
                           LET x == od[i].discoveries[k] IN
